@@ -4,6 +4,7 @@ From Coq Require Import List NArith ZArith Bool Lia.
 From Tele Require Import Gen.Consts Model.FileConc Proofs.FileConcBase Proofs.FileConcInv.
 Import ListNotations.
 Open Scope N_scope.
+Set Default Proof Using "Type".
 
 Section Thms.
 Variable bucket : name -> N.
